@@ -98,7 +98,8 @@ def mutate(rng, net):
 
 
 def gen(rng, tier):
-    c0 = G.gen_net(rng, n_inputs=(1, 5), n_gates=(1, 10), types=G.swarm_types(rng), max_arity=rng.randint(2, 4),
+    big = tier == "thorough" and rng.random() < 0.3
+    c0 = G.gen_net(rng, n_inputs=(3, 6) if big else (1, 5), n_gates=(8, 16) if big else (1, 10), types=G.swarm_types(rng), max_arity=rng.randint(2, 4),
                    constants=0.2, name_style=rng.choice(("plain", "plain", "underscore")), min_outputs=1,
                    input_outputs=0.05)
     kind = rng.choices(("copy", "self", "restructured", "mutated", "unrelated", "cut"), weights=[2, 2, 4, 4, 2, 2])[0]
